@@ -696,8 +696,57 @@ fn c06_small_history(rng: &mut Rng, n_ops: usize, ed: &Edges, origin: &str) -> H
     History { kt: "bytes".into(), cfg: default_bufs(Buckets::Size(*rng.pick(&[1u64, 8, 64]))), keys, ops, origin: origin.to_string() }
 }
 
+/// a fitting free slot behind `n` slots that are too small on the shared first-fit list: one record of length `l` is
+/// freed first, then `n` records of 1100..1160 bytes (each pushed in front of it); the next request of length `l` has to
+/// walk the whole list and take the slot at its far end instead of extending the file. `keys`: the records are keys.
+fn c06_long_list_history(n: usize, l: u32, keys: bool) -> History {
+    let mut ks: Vec<Vec<u8>> = Vec::new();
+    let mut ops = Vec::new();
+    let klen = |i: usize| -> usize { if !keys { 6 } else if i == 0 { l as usize } else { 1100 + (i % 7) * 8 } };
+    for i in 0..n + 2 {
+        let mut k = crate::util::gen_bytes(klen(i), 7000 + i as u32, 1);
+        k[..6].copy_from_slice(format!("L{i:05}").as_bytes());
+        if i == n + 1 {
+            k.truncate(6);
+        }
+        ks.push(k);
+    }
+    let vlen = |i: usize| -> u32 { if keys { 5 + (i % 3) as u32 } else if i == 0 { l } else { 1100 + ((i % 7) * 8) as u32 } };
+    for i in 0..n + 2 {
+        ops.push(Op::Put(i, ValSpec { len: if i == n + 1 { 20 } else { vlen(i) }, seed: i as u32, kind: 0 }));
+    }
+    for i in 0..=n {
+        ops.push(Op::Del(i));
+    }
+    // the far end of the list, then two of the small ones again, then the big one once more after another delete
+    ops.push(Op::Put(0, ValSpec { len: vlen(0), seed: 99, kind: 0 }));
+    ops.push(Op::Put(1, ValSpec { len: vlen(1), seed: 98, kind: 0 }));
+    ops.push(Op::Put(n, ValSpec { len: vlen(n), seed: 97, kind: 0 }));
+    ops.push(Op::Del(0));
+    ops.push(Op::Put(0, ValSpec { len: vlen(0), seed: 96, kind: 0 }));
+    History { kt: "bytes".into(), cfg: default_bufs(Buckets::Size(64)), keys: ks, ops, origin: format!("c06 long first-fit list n={n} l={l} keys={keys}") }
+}
+
 pub fn c06(a: &Args) -> Ctx {
     let mut ctx = Ctx::new("C06", &["C06"], &a.replay_dir, &a.shard_name());
+    // (0) directed: a fitting slot at the far end of a long first-fit list
+    let variants: [(usize, u32, bool); 10] = [(3, 3000, false), (25, 3000, false), (40, 20_000, false), (70, 3000, false), (130, 5000, false), (300, 3000, false), (25, 3000, true), (40, 5000, true), (70, 3000, true), (130, 3000, true)];
+    for (i, &(n, l, keys)) in variants.iter().enumerate() {
+        if i % a.nshards != a.shard {
+            continue;
+        }
+        let h = c06_long_list_history(n, l, keys);
+        ctx.evaluations += 1;
+        ctx.count("long_list_histories", 1);
+        ctx.max("long_list_max_depth", n as u64);
+        if let Some(stop) = c06_audited_history(a, &h, &mut ctx) {
+            let v = matches!(stop, Stop::Violation(_));
+            ctx.record_stop(stop, Some(&h));
+            if v {
+                return ctx;
+            }
+        }
+    }
     let ed = edges();
     let mut rng = Rng::new(a.shard_seed() ^ 0xC06);
     // (1) audited small maps
